@@ -15,10 +15,10 @@ entered before the panic. Reflect's conversions are modelled for the data Decomp
 produce; conversions Go performs in odd ways (a number into a string field …) answer `outside`
 (`Slot.outside`), they only arise when a foreign index is applied.
 
-The flag `bareName` carries the deviation from C16: `true` is the code as it is, `false` the proposed
-repair (notes/proposed_fixes/C16_registry_bare_name.md): a composer found under a name — the bare
-name in `recomp`, the full name in `registerComposer` — is used only when it was made for this
-very type (`c.rtype == rv.Type()`, here `typeBeq`); otherwise the type is registered, which replaces
+The flag `bareName` carries the deviation from C16 that /repo 6d5fecb repaired: `false` is the code as
+it is NOW, `true` the code before that commit. Now a composer found under a name — the bare name in
+`recomp`, the full name in `registerComposer` — is used only when it was made for this very type
+(`c.rtype == rv.Type()`, here `typeBeq`); otherwise the type is registered, which replaces
 the foreign entry. `recBody`/`recompG` take the composer lookup as a parameter, so that the same
 traversal runs with the real registry (`composerFor`) and with an ideal one (`composerPure`: every
 struct type is decoded with its own field index) — the theorems of `Props/C16.lean` compare the two. -/
